@@ -160,6 +160,15 @@ func init() {
 		Marker: "C11 violated on the real code",
 		Data:   func(m map[string]string, goal string) (map[string]interface{}, error) { return map[string]interface{}{}, nil },
 	})
+	// C09: a short position whose custody went negative through funding fees is closed partly by its
+	// owner: Repay removes it while the pool keeps the unclosed share (fixed message-level scenario
+	// written by a sub-agent from the failing obligation's description; no model values needed)
+	registerReplay(&Replayer{
+		Obligation: "x/perpetual/keeper.(Keeper).Repay/ensures:C09/a-removed-position-has-nothing-left",
+		Template:   "C09_partial_close_of_drained_short.go.tmpl", PkgDir: "x/perpetual/keeper", TestName: "TestKeeperSuite/TestC09PartialCloseOfDrainedShortLeavesPoolBooksFundingVariation",
+		Marker: "C09 violated on the real code",
+		Data:   func(m map[string]string, goal string) (map[string]interface{}, error) { return map[string]interface{}{}, nil },
+	})
 	// C08: a liquidation that fails after the pool total was written (the reward payout fails);
 	// fixed scenario, no model values needed
 	for _, fn := range []string{"CheckAndLiquidateUnhealthyPosition", "CheckAndCloseAtStopLoss"} {
